@@ -41,6 +41,8 @@ type Conn struct {
 	rdlTimer *vrt.Timer
 	// OnClose is called when the client closes the connection.
 	OnClose func()
+	// BlockWrites makes Write block (full send buffer) until cleared or the connection is closed.
+	BlockWrites bool
 }
 
 func (c *Conn) fault(kind string) *Fault {
@@ -92,6 +94,9 @@ func (c *Conn) Read(p []byte) (int, error) {
 func (c *Conn) Write(p []byte) (int, error) {
 	f := c.fault("write")
 	vrt.Yield("conn.Write")
+	if c.BlockWrites {
+		vrt.Await("conn.Write(blocked)", func() bool { return !c.BlockWrites || c.Closed })
+	}
 	if f != nil {
 		n := f.Partial
 		if n < 0 {
